@@ -1,4 +1,5 @@
-(* C08 — model of the writer layer (what the code DOES, quirks included):
+(* C08 — model of the writer layer (what the code DOES, quirks included; follows /repo
+   including the repairs a12128b, d8902ad, 540bd39):
      Volume/VolumeT4.py                       [volume, vempty, surface_ids, volu_line_of]
      Surface/SurfaceT4.py                     [surface, surf_line_of]  (__str__, transform_block, comment;
                                                __eq__/__hash__ abstracted as [eeqb] on an opaque payload)
